@@ -9,40 +9,49 @@ from ..coqeval import eval_shards, parse_eval_results
 
 RULE = ("core: seeded read matrices (1..6 reads, 2..6 columns, alleles 0/1, qualities from {0,10,20,30,7,13}, reads with "
         "gaps (BLANK entries), optionally columns no read covers, up to 10 columns with few reads so that the sqrt "
-        "check-pointing keeps every 2nd/3rd column only), priors uniform / 1/3 / dyadic / unnormalised-skewed, "
-        "recombination costs from {0,1,3,10,20,30}; single individuals, trios, quartets (two children); plus the "
-        "hand-made matrices of tests/test_genotyping.py. The real GenotypeDPTable runs in a child process; its "
-        "likelihoods (doubles -> exact rationals) are compared inside Coq, relative tolerance 1e-9, with the plain "
-        "brute-force posterior (tiny instances), the per-bipartition chain posterior (proved equal) and the faithful "
-        "model of the scaled, projected, check-pointed forward-backward pass. CLI: `whatshap genotype` on synthetic "
-        "reference/VCF/BAM data (single sample and trio with PED, --no-priors and prior genotyping, several "
-        "--gt-qual-threshold); the DP instance the CLI builds is recorded in the child process, the model is "
-        "evaluated on it, and the VCF's GT/GL/GQ are checked against the writer rules. A case is non-trivial if "
+        "check-pointing keeps only every 2nd/3rd backward column and re-computes the others), priors uniform / 1/3 / "
+        "dyadic / unnormalised-skewed, recombination costs from {0,1,3,10,20,30}; single individuals, trios, quartets "
+        "(two children); plus the hand-made matrices of tests/test_genotyping.py. The real GenotypeDPTable runs in a "
+        "child process; its likelihoods (doubles -> exact rationals) are compared inside Coq, relative tolerance 1e-9, "
+        "with (L1) the plain brute-force posterior over (bipartition, transmission path, assignment path) on tiny "
+        "instances and its per-bipartition chain form on all (both proved equal to posterior_spec, C08_spec_variants) "
+        "and that each triple sums to one, and (L2) with the faithful model fb_run of the scaled, projected, "
+        "check-pointed forward-backward pass. CLI: `whatshap genotype` on synthetic reference/VCF/BAM data (single "
+        "sample, trio with PED; --no-priors and prior genotyping; several --gt-qual-threshold / --max-coverage / "
+        "--recombrate); the DP instance the CLI builds (reads, recombination costs, priors, pedigree) is recorded in "
+        "the child process, L1: the output VCF's GL triple is a distribution, GT its unique maximum above the threshold "
+        "or ./., GQ the rounded phred value of the other mass (on the VCF alone, tolerance 1e-4 for float formatting); "
+        "L2: GL/GT/GQ against the writer model applied to fb_run of the recorded instance. A case is non-trivial if "
         "some column has >= 2 active reads and some read ends before the last column or starts after the first "
         "(projections are not the identity); distinct = distinct instance.")
 TRUSTED = [
     "modelled, not verified: IEEE/x87 rounding of the long double arithmetic, under/overflow for long instances, "
-    "pow(10,-q/10): the error-probability table p_q (p_0 = 0.9999) and the recombination probabilities enter the model as "
-    "rationals within 1e-12 (relative, for p and 1-p) of the values the C++ computes; implementation results (doubles) are "
-    "converted to exact rationals and compared with relative tolerance 1e-9 (the only tolerance for the core)",
+    "pow(10,-q/10): the error-probability table p_q (p_0 = 0.9999), the recombination probabilities and the priors enter the "
+    "model as rationals within 1e-12 (relative, for p and 1-p) of the doubles the C++ uses; implementation results (doubles) "
+    "are converted to exact rationals and compared with relative tolerance 1e-9 (the only tolerance for the core)",
     "the model iterates over bipartitions as bit lists in a fixed order instead of Gray-code order with incremental "
-    "multiply/divide updates of the emission products (equal in exact arithmetic because p and 1-p are nonzero); sums over "
-    "the allele assignment are factored out of inner loops (distributivity); tables indexed by integer projections are "
-    "functions of the projected bit list",
+    "multiply/divide updates of the emission products (equal in exact arithmetic because p and 1-p are nonzero; "
+    "set_partitioning's bit shift that skips BLANK entries is only ever called with partitioning 0, where it is immaterial); "
+    "sums over the allele assignment are factored out of inner loops (distributivity); the division by the scaling "
+    "parameter is applied to sum_prev_values; tables indexed by integer projections are functions of the projected bit list",
     "the executable model is polymorphic in the number type: the theorems instantiate it with an arbitrary mathcomp "
-    "fieldType (e.g. rat), the correspondence evaluates the same definitions with Bignums' BigQ (normalising operations; "
-    "BigQ's own correctness lemmas are the library's, relying on the primitive 63-bit integer axioms of Coq's Uint63)",
+    "fieldType (e.g. rat; Leibniz equality), the correspondence evaluates the same definitions with Bignums' BigQ "
+    "(normalising operations add_norm/mul_norm/div_norm; BigQ's correctness lemmas are the library's and rest on the "
+    "axioms of Coq's primitive 63-bit integers; they are not used by any theorem of this property)",
     "the prior genotyper (compute_genotypes, first pass of `whatshap genotype`) is outside the property and not modelled: "
-    "its output enters as the recorded priors; VCF float formatting (6 significant digits) and python's 10**x used to read "
-    "GL back are trusted canonicalisation: tolerance 1e-4 (relative) on GL-derived values",
+    "its output enters as the recorded priors; read extraction/selection of the CLI is not modelled (the recorded DP "
+    "instance is the model's input); VCF float formatting (6 significant digits) and python's 10**x used to read GL back "
+    "are trusted canonicalisation: tolerance 1e-4 (relative) on GL-derived values; exact model values are rounded to 80 "
+    "significant bits (qround) before the slack-tolerant GT/GQ rules are evaluated on them",
     "log10/round in the GQ rule are characterised by exact rational inequalities (n-1/2 <= -10 log10 m <= n+1/2 <-> "
     "10^-(2n+1) <= m^20 <= 10^-(2n-1)); this equivalence is mathematics outside Coq (no Reals in this development)",
 ]
 ASSUMPTIONS = [
-    "reads sorted by first position, every read covers >= 2 columns (ColumnIterator throws / a C++ assert aborts otherwise): "
-    "this is the hypothesis wf of the theorems (read ids numbered by first appearance, shared reads first)",
-    "no scaling sum / normalisation is zero (holds whenever all error probabilities are in (0,1) and priors are positive; "
-    "the model returns None otherwise and the theorem is stated for runs that return Some)",
+    "wf: reads sorted by first position and numbered by first appearance, every column = reads shared with the previous "
+    "column followed by the new reads (what ColumnIterator delivers for sorted reads covering >= 2 columns each; the C++ "
+    "throws / asserts otherwise), read sources are individuals of the pedigree, the pedigree resolves",
+    "the run returns Some: no scaling sum / normalisation is zero (true whenever all error probabilities are in (0,1) and "
+    "the priors are positive; with zero divisors the C++ produces inf/nan and the model None)",
 ]
 
 TOL = "(1 # 1000000000)%Q"
@@ -195,21 +204,21 @@ def gen_core(ctx):
     plan = []   # (label, kwargs, count, plain?)
     q = ctx.quick
     nice = dict(quals=[10, 20, 30, 0, 10, 20], prior_mode=None)
-    plan.append(("tiny-single", dict(nind=1, trios=(), max_reads=3, max_cols=3), ctx.n(16, 150), True))
+    plan.append(("tiny-single", dict(nind=1, trios=(), max_reads=3, max_cols=3), ctx.n(20, 200), True))
     plan.append(("tiny-trio", dict(nind=3, trios=trio, max_reads=2, max_cols=2, quals=[10, 20, 30], prior_mode="uniform"),
-                 ctx.n(2, 16), True))
-    plan.append(("single", dict(nind=1, trios=(), max_reads=6, max_cols=6), ctx.n(70, 1400), False))
-    plan.append(("single-uncovered", dict(nind=1, trios=(), max_reads=5, max_cols=6, uncovered=True), ctx.n(16, 300), False))
-    plan.append(("single-long", dict(nind=1, trios=(), max_reads=3, max_cols=10, uncovered=True), ctx.n(12, 200), False))
-    plan.append(("trio-small", dict(nind=3, trios=trio, max_reads=4, max_cols=4), ctx.n(10, 300), False))
+                 ctx.n(3, 24), True))
+    plan.append(("single", dict(nind=1, trios=(), max_reads=6, max_cols=6), ctx.n(100, 1500), False))
+    plan.append(("single-uncovered", dict(nind=1, trios=(), max_reads=5, max_cols=6, uncovered=True), ctx.n(20, 300), False))
+    plan.append(("single-long", dict(nind=1, trios=(), max_reads=3, max_cols=10, uncovered=True), ctx.n(14, 200), False))
+    plan.append(("trio-small", dict(nind=3, trios=trio, max_reads=4, max_cols=4), ctx.n(12, 300), False))
     plan.append(("trio-small-nice", dict(nind=3, trios=trio, max_reads=4, max_cols=4, quals=nice["quals"],
-                                         prior_mode="nice"), ctx.n(20, 300), False))
+                                         prior_mode="nice"), ctx.n(30, 400), False))
     plan.append(("trio", dict(nind=3, trios=trio, max_reads=6, max_cols=6, quals=nice["quals"], prior_mode="nice"),
-                 ctx.n(4, 120), False))
+                 ctx.n(6, 120), False))
     plan.append(("trio-long", dict(nind=3, trios=trio, max_reads=2, max_cols=9, uncovered=True, quals=nice["quals"],
-                                   prior_mode="nice"), ctx.n(3, 60), False))
+                                   prior_mode="nice"), ctx.n(4, 60), False))
     plan.append(("quartet", dict(nind=4, trios=quartet, max_reads=2, max_cols=3, quals=nice["quals"], prior_mode="nice"),
-                 ctx.n(3, 60), False))
+                 ctx.n(4, 60), False))
     out = []
     for label, kw, count, plain in plan:
         for _ in range(count):
@@ -374,10 +383,6 @@ def parse_vcf_calls(text):
     return calls
 
 
-def dec_fraction(s):
-    return Fraction(s)
-
-
 def gt_index(gt):
     if gt in (".", "./.", ".|."):
         return None
@@ -424,15 +429,6 @@ def cli_cases(ctx, n):
                                    for a, v in args.items()}, rc=rc, stdout=so, stderr=se[-2000:], trio=trio,
                         scenario=sc.to_json()))
     return out
-
-
-def cli_instance(entry):
-    """recorded DP instance of the CLI -> instance dict for the model (columns = accessible positions)."""
-    pos = entry["positions"]
-    col = {p: i for i, p in enumerate(pos)}
-    sid = entry["sample_ids"]                       # sample name -> numeric id
-    names = sorted(sid, key=lambda s: sid[s])
-    return pos, col, sid, names
 
 
 def check_cli(ctx, n):
@@ -555,7 +551,7 @@ def run(ctx):
         ctx.sample({"inst": rec["inst"], "impl": rec["impl"].get("ok"), "checks": rec["ok"]})
     report_core(ctx, records)
     ctx.extra["core_checks"] = {k: sum(1 for r in records if k in r["ok"]) for k in ("L2", "L1chain", "L1plain", "L1sum")}
-    check_cli(ctx, ctx.n(12, 120))
+    check_cli(ctx, ctx.n(15, 150))
 
 
 def replay(ctx, data):
